@@ -11,41 +11,21 @@ ERROR awkward_ListOffsetArray_reduce_nonlocal_outstartsstops_64(
   int64_t lendistincts,
   const int64_t* gaps,
   int64_t outlength) {
-  int64_t maxcount = lendistincts / outlength;
-
-  int64_t j = 0;
-  int64_t k = 0;
-  int64_t maxdistinct = -1;
-  int64_t lasti = -1;
-  for (int64_t i = 0;  i < lendistincts;  i++) {
-    if (maxdistinct < distincts[i]) {
-      maxdistinct = distincts[i];
-
-      int64_t extra = (i - lasti)/maxcount;
-      lasti = i;
-
-      int64_t numgappy = gaps[j];
-      if (numgappy < extra) {
-        numgappy = extra;
+  // distincts holds one block of maxcount entries per output list (the index
+  // into it is parent*maxcount + depth, as built by preparenext), so list k of
+  // the output is the filled prefix of block k - also when earlier lists are
+  // empty and therefore never appear in distincts.
+  int64_t maxcount = (outlength == 0 ? lendistincts : lendistincts / outlength);
+  for (int64_t k = 0;  k < outlength;  k++) {
+    int64_t start = k*maxcount;
+    int64_t stop = start;
+    for (int64_t i = start;  i < start + maxcount;  i++) {
+      if (distincts[i] != -1) {
+        stop = i + 1;
       }
-
-      for (int64_t gappy = 0;  gappy < numgappy;  gappy++) {
-        outstarts[k] = i;
-        outstops[k] = i;
-        k++;
-      }
-      j++;
     }
-
-    if (distincts[i] != -1) {
-      outstops[k - 1] = i + 1;
-    }
+    outstarts[k] = start;
+    outstops[k] = stop;
   }
-
-  for (;  k < outlength;  k++) {
-    outstarts[k] = lendistincts + 1;
-    outstops[k] = lendistincts + 1;
-  }
-
   return success();
 }
